@@ -258,10 +258,13 @@ def scanR (round : List (Str × Nat)) : List Str → Nat → List Bool × Nat
     | some r => if e > r then (false :: fs, e) else (true :: fs, r)
     | none => (false :: fs, e)
 
-/-- `is_end` and `end_flag` of `__get_int_value`: index 0 is never examined (`range(len - 1, 0, -1)`). -/
-def endFlags (round : List (Str × Nat)) : List Str → List Bool × Nat
+/-- `is_end` and `end_flag` of `__get_int_value`. Two variants of the code are modelled (DESIGN 2.5):
+`fx = false`: the scan is `range(len - 1, 0, -1)` — index 0 is never examined (the code as first found, a mis-port
+of the C# loop `i >= 0`); `fx = true`: `range(len - 1, -1, -1)` (findings/num/int-value-leading-round.diff).
+The correspondence probes which variant the working tree follows. -/
+def endFlags (fx : Bool) (round : List (Str × Nat)) : List Str → List Bool × Nat
   | [] => ([], 1)
-  | _ :: ts => let (fs, e) := scanR round ts 1; (false :: fs, e)
+  | t :: ts => if fx then scanR round (t :: ts) 1 else let (fs, e) := scanR round ts 1; (false :: fs, e)
 
 /-- Python `str.isdigit()` of a token and `int(token)`. -/
 def tokenInt (tab : DigitTab) (s : Str) : Option (Except Err Nat) :=
@@ -336,28 +339,32 @@ def Res.scale (m : Nat) : Res → Res
   | r => r
 
 /-- The `else` branch: walk tokens with their flags; `cur` = tokens since the last end word (reversed).
-At an end word: `mul_value * __get_int_value(matches[last_index:i])`; at the end the remainder, if any. -/
-def segGo (rec : List Str → Res) (round : List (Str × Nat)) : List (Str × Bool) → List Str → Res
+At an end word: `mul_value * part_value` with `part_value = __get_int_value(matches[last_index:i])`
+(`fx = false`: whenever `i != 0`, so an empty slice counts 0; `fx = true`: whenever `i != last_index`, an empty
+slice counts 1); at the end the remainder, if any. -/
+def segGo (fx : Bool) (rec : List Str → Res) (round : List (Str × Nat)) : List (Str × Bool) → List Str → Res
   | [], cur => if cur.isEmpty then .ok 0 else rec cur.reverse
   | (t, true) :: rest, cur =>
-    Res.add (Res.scale ((lookup round t).getD 0) (rec cur.reverse)) (segGo rec round rest [])
-  | (t, false) :: rest, cur => segGo rec round rest (t :: cur)
+    Res.add (Res.scale ((lookup round t).getD 0) (if fx && cur.isEmpty then .ok 1 else rec cur.reverse))
+      (segGo fx rec round rest [])
+  | (t, false) :: rest, cur => segGo fx rec round rest (t :: cur)
 
 /-- `__get_int_value(matches)` with recursion depth `fuel`. -/
-def getIntValueF (tab : DigitTab) (c : LangCfg) : Nat → List Str → Res
+def getIntValueF (fx : Bool) (tab : DigitTab) (c : LangCfg) : Nat → List Str → Res
   | 0, _ => .fuel
   | fuel + 1, toks =>
-    let (flags, ef) := endFlags c.round toks
+    let (flags, ef) := endFlags fx c.round toks
     if ef == 1 then Res.ofExcept (stackEval tab c toks)
-    else segGo (getIntValueF tab c fuel) c.round (toks.zip flags) []
+    else segGo fx (getIntValueF fx tab c fuel) c.round (toks.zip flags) []
 
-def getIntValue (tab : DigitTab) (c : LangCfg) (toks : List Str) : Res :=
-  getIntValueF tab c (toks.length + 3) toks
+def getIntValue (fx : Bool) (tab : DigitTab) (c : LangCfg) (toks : List Str) : Res :=
+  getIntValueF fx tab c (toks.length + 3) toks
 
 /-- `_text_number_parse` on an already tokenised integer part without a written decimal separator:
 `int_part_real + Decimal(point_part_real)` with `point_part_real = Decimal(0)`, then `culture_info.format`. -/
-def textResolution (p : Nat) (tab : DigitTab) (c : LangCfg) (lf : Option (Nat × Nat)) (toks : List Str) : Res × Str :=
-  match getIntValue tab c toks with
+def textResolution (fx : Bool) (p : Nat) (tab : DigitTab) (c : LangCfg) (lf : Option (Nat × Nat)) (toks : List Str) :
+    Res × Str :=
+  match getIntValue fx tab c toks with
   | .ok n => (.ok n, Dec.format lf (Dec.add p (Dec.ofNat n) Dec.zero))
   | r => (r, [])
 
